@@ -225,7 +225,11 @@ theorem C19_nil_comparator_strictWeak {β : Type} {less : β → β → Bool} (h
 theorem C19_builder_code_shape :
     Gen.sortBuilderNew = .lenCap 0 builderInitCap ∧
     Gen.sortBuilderThenWith =
-      [("ThenWith", .receiver), ("ThenWithFieldName", .receiver), ("ThenWithTransformerFunctor", .receiver)] := by
+      [("ThenWith", .receiver), ("ThenWithFieldName", .receiver), ("ThenWithTransformerFunctor", .receiver)] ∧
+    -- … and no `ThenWith…` method has a return path that hands out anything but the result of that append
+    -- (in particular never the caller's argument slice)
+    Gen.sortBuilderThenWithReturns =
+      [("ThenWith", []), ("ThenWithFieldName", []), ("ThenWithTransformerFunctor", [])] := by
   decide
 
 /-- Forking on ANY heap: from a FULL builder slice `p` (len = cap) derive any number of siblings by one
@@ -260,6 +264,29 @@ theorem C19_builder_fork_of_three_keys_aliases {δ : Type} (a b c d e : δ) :
     forkedBuilders [a, b, c] [[d], [e]] = [[a, b, c], [a, b, c, e], [a, b, c, e]] := by
   simp [forkedBuilders, forkedBuildersCap, builderInitCap, newBuilderCap, thenWithChain, thenWith, deriveSiblings,
     Heap.append, Heap.read, Heap.write, growCap]
+
+/-- A caller-owned descriptor slice spread into an EMPTY builder is COPIED (`append` onto capacity 0
+    allocates): whatever prefix `all[:k]` is spread (k = 1, 2; |all| = 2, 3), however the builder is
+    extended afterwards and whatever the caller then writes into its slice (up to |all| entries), the
+    builder holds `all[:k]`, its extension `all[:k] ++ [ext]`, and the caller's slice holds exactly its own
+    writes.  (Shapes enumerated up to the property's 3 keys; elements arbitrary.) -/
+theorem C19_spread_builder_copies {δ : Type} (a b c e w0 w1 w2 : δ) :
+    spreadRun false [a, b] 1 [] e = [[a], [a, e], [a, b]] ∧
+    spreadRun false [a, b] 2 [w0, w1] e = [[a, b], [a, b, e], [w0, w1]] ∧
+    spreadRun false [a, b, c] 1 [w0] e = [[a], [a, e], [w0, b, c]] ∧
+    spreadRun false [a, b, c] 2 [w0, w1, w2] e = [[a, b], [a, b, e], [w0, w1, w2]] ∧
+    spreadRun false [a, b, c] 2 [] e = [[a, b], [a, b, e], [a, b, c]] := by
+  simp [spreadRun, newBuilder, newBuilderCap, builderInitCap, thenWith, Heap.append, Heap.read, Heap.write,
+    overwritePrefix, growCap]
+
+/-- If `ThenWith` on an empty builder ADOPTED the argument slice instead (not the code; pinned by
+    `C19_builder_code_shape`): the builder's extension would land in the caller's `all[1]`, and the
+    caller's later writes would show through the builder. -/
+theorem C19_spread_adoption_aliases {δ : Type} (a b c e w0 : δ) :
+    spreadRun true [a, b, c] 1 [] e = [[a], [a, e], [a, e, c]] ∧
+    spreadRun true [a, b] 2 [w0] e = [[w0, b], [a, b, e], [w0, b]] := by
+  simp [spreadRun, newBuilder, newBuilderCap, builderInitCap, thenWith, Heap.append, Heap.read, Heap.write,
+    overwritePrefix, growCap]
 
 /-! ## (4) oracle = model: what `judge` accepts is exactly what `handle` answers -/
 
